@@ -145,10 +145,11 @@ class CamHarness:
 
         def tm():
             return times.pop(0) if len(times) > 1 else times[0]
+        self.filled_real = filled_real = []
         with mock.patch.object(TimeService, "time", staticmethod(tm)), \
                 mock.patch.object(CTM, "_haversine_m", lambda *a: havs[0] if havs else 0.0), \
                 mock.patch.object(CAMTransmissionManagement, "_send_cam", spy), \
-                mock.patch.object(CooperativeAwarenessMessage, "fullfill_with_tpv_data", lambda s, t: None):
+                mock.patch.object(CooperativeAwarenessMessage, "fullfill_with_tpv_data", lambda s, t: filled_real.append((t, t is tpv))):
             m._evaluate_and_maybe_send()
         return m, cams, sent
 
@@ -283,10 +284,70 @@ def cam_check(ctx):
             return z3.Or(*[cc for cc, x in t.alts if x is h.tpv]) if any(x is h.tpv for _, x in t.alts) else FALSE
         return z3.BoolVal(t is h.tpv)
     m7 = [z3.And(c, z3.Not(is_cached(t))) for c, t in h.filled]
-    ctx.prove("M7-cam-built-from-latest-report", I, z3.Or(*m7) if m7 else TRUE, vars=vars_, replay=lambda v: (True, "CAM filled from something else than the cached report"))
+    def replay_m7(vals):
+        m, cams, sent = h.real(vals)
+        wrong = [t for t, same in h.filled_real if not same]
+        return bool(wrong) or (bool(cams) and not h.filled_real), f"CAM filled from {wrong[:1] or 'nothing'} instead of the cached position report ({len(h.filled_real)} fill calls for {len(cams)} CAMs)"
+    ctx.prove("M7-cam-built-from-latest-report", I, z3.Or(*m7) if m7 else TRUE, vars=vars_, replay=replay_m7)
     ctx.bound("one evaluation from an arbitrary state: T_GenCam 100..1000, counter 0..2, arbitrary last-CAM / last-LF times <= now, optional last heading/position/speed, "
               "arbitrary report with every subset of lat/lon/speed/track; real-valued clock; haversine distance an arbitrary non-negative real")
     ctx.stub("TimeService.time non-decreasing reals; _haversine_m free; _send_cam records and may fail; CAM field filling (C11) stubbed")
+
+
+class _FakeTimerC10:
+    made = []
+
+    def __init__(self, delay, fn, args=None, kwargs=None):
+        self.delay, self.fn, self.started, self.cancelled, self.daemon = delay, fn, False, False, False
+        _FakeTimerC10.made.append(self)
+
+    def start(self):
+        self.started = True
+
+    def cancel(self):
+        self.cancelled = True
+
+
+def _replay_start(vals):
+    from unittest import mock
+    import flexstack.facilities.ca_basic_service.cam_transmission_management as mod
+    m = CAMTransmissionManagement(mock.Mock(), mock.Mock(), VehicleData(station_id=1, station_type=5, vehicle_role=0))
+    m._active = bool(vals["was_active"])
+    m._cam_count, m._last_cam_time_ms, m._last_lf_time_ms = 7, 1000, 900
+    _FakeTimerC10.made = []
+    jit = float(vals["jitter"]) if not isinstance(vals["jitter"], str) else float(__import__("fractions").Fraction(vals["jitter"].rstrip("?")))
+    with mock.patch.object(mod.threading, "Timer", _FakeTimerC10), mock.patch.object(mod.random, "uniform", lambda a, b: min(max(jit, a), b)):
+        m.start()
+    bad = []
+    if not vals["was_active"]:
+        started = [t for t in _FakeTimerC10.made if t.started]
+        if not started:
+            bad.append("no check timer armed")
+        for t in started:
+            if t.delay < 0 or t.delay * 1000 > 100 + 1e-9:
+                bad.append(f"first check armed after {t.delay * 1000:.3f} ms (outside [0, 100] ms)")
+        if m._last_cam_time_ms is not None or m._cam_count != 0:
+            bad.append(f"generation state not reset (last CAM time {m._last_cam_time_ms}, count {m._cam_count})")
+        if not m._active:
+            bad.append("service not active after start()")
+    if m._timer is not None and hasattr(m._timer, "cancel"):
+        m._timer.cancel()
+    return bool(bad), "start(): " + ("; ".join(bad) or "as required")
+
+
+def _replay_stop(vals):
+    from unittest import mock
+    m = CAMTransmissionManagement(mock.Mock(), mock.Mock(), VehicleData(station_id=1, station_type=5, vehicle_role=0))
+    t = _FakeTimerC10(0.1, None)
+    t.started = True
+    m._active, m._timer = True, t
+    m.stop()
+    bad = []
+    if not t.cancelled:
+        bad.append("the armed timer was not cancelled")
+    if m._active:
+        bad.append("service still active")
+    return bool(bad), "stop(): " + ("; ".join(bad) or "as required")
 
 
 def _ne(I, v, expected):
@@ -380,7 +441,7 @@ def timer_loop(ctx):
                                            z3.Not(_is_none(I2, o2.fields["_last_cam_time_ms"])), I2.num(o2.fields["_cam_count"]) != 0,
                                            z3.Not(I2.to_bool(o2.fields["_active"]))))
     ctx.prove("start-resets-and-arms-within-one-period", I2, bad, vars={"was_active": was_active, "jitter": u},
-              replay=lambda v: (True, "start() did not reset the generation state / arm the first check within [0,100] ms"),
+              replay=_replay_start,
               desc="start(): state reset (next CAM is a 'first' CAM with LF container), first check within one T_CheckCamGen")
     I3 = make("int")
     tm = TimerRec(0.1, None, [], TRUE)
@@ -388,7 +449,7 @@ def timer_loop(ctx):
     o3 = Obj(CAMTransmissionManagement, dict(_active=True, _timer=tm))
     I3.call_function(CAMTransmissionManagement.stop, [o3])
     ctx.prove("stop-cancels-and-deactivates", I3, z3.Or(z3.Not(tm.cancelled), I3.to_bool(o3.fields["_active"])), vars={},
-              replay=lambda v: (True, "stop() left the service active or its timer armed"))
+              replay=_replay_stop)
     ctx.bound("active flag and evaluation outcome symbolic; start() from an arbitrary previous state; random jitter an arbitrary value in the requested interval")
     ctx.stub("threading.Timer records (delay, callback, start/cancel); random.uniform returns any value in range")
 
@@ -621,7 +682,8 @@ def vam_lf(ctx):
         has = "vruLowFrequencyContainer" in v.vam["vam"]["vamParameters"]
         want = vals["is_first"] or not vals["has_last_lf"] or (vals["now"] - vals["last_lf"]) * 1000 >= VC_.T_GENVAM_LFMIN or vals["has_cluster_operation_container"]
         upd = m.last_lf_vam_time == vals["now"]
-        return has != want or (has and not upd), f"first={vals['is_first']} last LF {vals['now'] - vals['last_lf'] if vals['has_last_lf'] else None} s ago: container attached={has}, expected {want}, time updated={upd}"
+        stale = (not has) and vals["has_last_lf"] and m.last_lf_vam_time != vals["last_lf"]
+        return has != want or (has and not upd) or stale, ("the low-frequency timestamp moved although the container was not attached; " if stale else "") + f"first={vals['is_first']} last LF {vals['now'] - vals['last_lf'] if vals['has_last_lf'] else None} s ago: container attached={has}, expected {want}, time updated={upd}"
     ctx.witness("reach-attached", I, z3.And(got, z3.Not(first)), vars=vars_, validate=lambda v: not replay(v)[0])
     ctx.prove("lf-iff-first-or-2s", I, got != due, vars=vars_, replay=replay,
               desc="LF container attached exactly for the first VAM, after >= 2000 ms, or with a cluster-operation container")
